@@ -930,8 +930,18 @@ fn c27_from_unsorted_case(rng: &mut Rng, t: &mut Tally, c: usize) {
     // reference root over byte-sorted tuples
     let mut cur = leaf2;
     let mut sorted_levels: Vec<[[u8; 32]; 4]> = vec![];
+    // ties with the *running hash*: 1..3 siblings of one level equal the hash being inserted there
+    // (twin subtrees, an empty-slot leaf beside empty-slot siblings)
+    let tie_cur: Option<(usize, usize)> = if depth > 0 && !noncanon && rng.chance(1, 4) { Some((rng.usize(depth), 1 + rng.usize(3))) } else { None };
     if !noncanon {
         for l in 0..depth {
+            if let Some((tl, k)) = tie_cur {
+                if tl == l {
+                    for j in 0..k {
+                        unsorted[l][j] = cur;
+                    }
+                }
+            }
             let mut four = [cur, unsorted[l][0], unsorted[l][1], unsorted[l][2]];
             four.sort();
             sorted_levels.push(four);
@@ -946,6 +956,9 @@ fn c27_from_unsorted_case(rng: &mut Rng, t: &mut Tally, c: usize) {
                           "siblings": unsorted.iter().map(|l| l.iter().map(hex::encode).collect::<Vec<_>>()).collect::<Vec<_>>()});
     let want_ok = depth <= 16 && !noncanon;
     t.class(&format!("from_unsorted|depth{}|{}|{}", if depth <= 16 { "<=16" } else { ">16" }, if noncanon { "non-canonical" } else { "canonical" }, if wrong_root { "wrong-root" } else { "true-root" }));
+    if tie_cur.is_some() {
+        t.class("from_unsorted|sibling-equals-running-hash");
+    }
     let got = match catch(|| ZkMerkleProof::from_unsorted(7, unsorted.clone(), leaf2, root)) {
         Err(p) => {
             t.violation("C27:from_unsorted:panic", format!("from_unsorted panicked: {}", p), case());
@@ -991,6 +1004,44 @@ fn c27_from_unsorted_case(rng: &mut Rng, t: &mut Tally, c: usize) {
             }
         }
     }
+    // the circuit crate's twin builder (the one feeding the leaf witness) on the same input
+    use wormhole_circuit::zk_merkle_proof::{ZkLeafData, ZkMerkleProofData};
+    let leaf_data = ZkLeafData::new([0x21u8; 32], 7, 0, 1000, 900, 99, 10);
+    t.eval();
+    match catch(|| ZkMerkleProofData::from_unsorted(root, unsorted.clone(), leaf2, leaf_data, true)) {
+        Err(p) => t.violation("C27:circuit-from_unsorted:panic", format!("ZkMerkleProofData::from_unsorted panicked: {}", p), case()),
+        Ok(Ok(_)) if !want_ok => t.violation("C27:circuit-from_unsorted:accepts", format!("ZkMerkleProofData::from_unsorted accepts depth {} / non-canonical={} input", depth, noncanon), case()),
+        Ok(Err(e)) if want_ok => t.violation("C27:circuit-from_unsorted:rejects", format!("ZkMerkleProofData::from_unsorted rejects a canonical path of depth {}: {}", depth, e), case()),
+        Ok(Err(_)) => {}
+        Ok(Ok(d)) => {
+            if d.depth != depth || d.positions.len() != depth || d.siblings.len() != depth || d.root_hash.map(|f| f.to_canonical_u64()) != refm::bytes_to_d4(&root) {
+                t.violation("C27:circuit-from_unsorted:shape", "ZkMerkleProofData::from_unsorted output has the wrong depth / root".to_string(), case());
+                return;
+            }
+            for l in 0..depth {
+                let pos = d.positions[l] as usize;
+                let sib: Vec<[u64; 4]> = d.siblings[l].iter().map(|x| x.map(|f| f.to_canonical_u64())).collect();
+                let want4: Vec<[u64; 4]> = sorted_levels[l].iter().map(refm::bytes_to_d4).collect();
+                let ok = pos <= 3 && {
+                    let mut four = sib.clone();
+                    four.insert(pos, want4[pos]);
+                    // the running hash of level l is the sorted tuple's entry at `pos` only if it is the hash being inserted
+                    four == want4 && {
+                        let running = if l == 0 { refm::bytes_to_d4(&leaf2) } else { refm::h(&want4_prev(&sorted_levels, l)) };
+                        want4[pos] == running
+                    }
+                };
+                if !ok {
+                    t.violation("C27:circuit-from_unsorted:rank", format!("ZkMerkleProofData::from_unsorted level {}: position {} / stored siblings do not reproduce the byte-sorted 4-tuple around the running hash", l, pos), case());
+                    return;
+                }
+            }
+        }
+    }
+}
+
+fn want4_prev(sorted_levels: &[[[u8; 32]; 4]], l: usize) -> Vec<u64> {
+    sorted_levels[l - 1].iter().flat_map(refm::bytes_to_d4).collect()
 }
 
 /// Circuit clause: E1 on the real leaf circuit says Sat <=> native verify for the tree path.
